@@ -233,7 +233,14 @@ fn get_nested__ragged_stepwise_missing_is_none() {
 /// value) of the same ragged value; outer index I constant per obligation, j any u32.
 fn extract_nested_ragged<const I: u32>() {
     let (a, b, c): (i64, i64, i64) = kani::any();
-    let outer = ragged(a, b, c);
+    // the whole value lives in fixed-size locals (borrowed representation throughout)
+    let row0 = [LhsValue::Int(a), LhsValue::Int(b)];
+    let row1 = [LhsValue::Int(c)];
+    let rows = [
+        LhsValue::Array(array_borrowed(Type::Int, &row0[..])),
+        LhsValue::Array(array_borrowed(Type::Int, &row1[..])),
+    ];
+    let outer = LhsValue::Array(array_borrowed(Type::Array(Type::Int.into()), &rows[..]));
     let j: u32 = kani::any();
     let want = ragged_want(a, b, c, I, j);
     let path = [FieldIndex::ArrayIndex(I), FieldIndex::ArrayIndex(j)];
@@ -254,6 +261,8 @@ fn extract_nested_ragged<const I: u32>() {
     kani::cover!(j == 0);
     kani::cover!(j == u32::MAX);
     std::mem::forget(outer);
+    std::mem::forget(rows);
+    std::mem::forget((row0, row1));
 }
 
 proof!(extract_nested__ragged_borrowed_row0, 3, extract_nested_ragged::<0>());
